@@ -284,6 +284,24 @@ Definition check_sig (s : sigin) : bool :=
   else if negb (s_zone_key s) then false
   else s_crypto_ok s.
 
+(* Group::check_sig_cached: the verdict of check_sig is cached under (signed data,
+   RRSIG, key); [cached] is what the cache holds for this key.  T1 tells whether
+   the validity period is checked against the clock before the cache is trusted. *)
+Definition check_sig_cached (cached : option bool) (s : sigin) : bool :=
+  if sig_cache_checks_time_first && negb (sig_time_ok (s_now s) (s_inception s) (s_expiration s)) then false
+  else match cached with Some b => b | None => check_sig s end.
+
+(* utilities.rs ttl_for_sig: seconds until the expiration, a u32 subtraction *)
+Definition ttl_until_expired (now exp : N) : outcome N :=
+  if ttl_for_sig_wraps then Ok ((exp + M32 - now) mod M32) else u32_sub exp now.
+
+(* one signature, in order except possibly for its times, validated on one context
+   at [now1] and again at [now2]: does the second validation accept it? *)
+Definition revalidate (now1 now2 inc exp : N) : outcome bool :=
+  let first := sig_time_ok now1 inc exp in
+  let second := if sig_cache_checks_time_first && negb (sig_time_ok now2 inc exp) then false else first in
+  if second then do _ <- ttl_until_expired now2 exp; Ok true else Ok false.
+
 (* RrsigExt::wildcard_closest_encloser: Some(suffix with [labels] labels) iff labels < owner labels *)
 Definition wildcard_closest_encloser (owner : name) (sig_labels : N) : option name :=
   if Nat.ltb (N.to_nat sig_labels) (length owner)
